@@ -26,7 +26,7 @@ RoutesOf(f, p) ==
     [] f = "RiemannIG" -> {"IGEOS=GenEOS"}
     [] OTHER -> {}
 
-HasDims == {"Noh", "Noh2", "Sedov", "RiemannIG", "RiemannGen", "Cog1", "Cog8", "EHEP", "Mader", "EPpiston", "Kenamond1", "Kenamond2",
+HasDims == CogUnits \cup {"Noh", "Noh2", "Sedov", "RiemannIG", "RiemannGen", "EHEP", "Mader", "EPpiston", "Kenamond1", "Kenamond2",
             "Kenamond3", "DSDcyl", "Blake", "Rod1D", "Hutchens1", "Guderley"}
 Scales == {[M |-> <<2, 1>>, L |-> <<1, 3>>, T |-> <<10, 1>>, K |-> <<7, 2>>],
            [M |-> <<1000, 1>>, L |-> <<10, 1>>, T |-> <<1, 3>>, K |-> <<1, 5>>]}
